@@ -350,6 +350,39 @@ Proof.
   pose proof (null_least (VBool b) Hk). tauto.
 Qed.
 
+(* ------------------------------------------------------------------ repetition *)
+Lemma repetition_laws : forall (s : list Z) (n : Z),
+  ev OMul [VStr s; VInt n] = ev OMul [VInt n; VStr s] /\
+  ev OMul [VList s; VInt n] = ev OMul [VInt n; VList s] /\
+  ((- max_index - 1 <= n <= 0)%Z -> ev OMul [VStr s; VInt n] = RVal (VStr [])) /\
+  ((Z.of_nat (length s) < alloc_limit)%Z -> ev OMul [VStr s; VInt 1] = RVal (VStr s)) /\
+  (forall r, ev OMul [VStr s; VInt n] = RVal (VStr r) -> (0 < n)%Z -> Z.of_nat (length r) = (Z.of_nat (length s) * n)%Z).
+Proof.
+  intros s n.
+  assert (E : ev OMul [VStr s; VInt n] = rep_result F VStr s (VInt n)).
+  { rewrite ev2 by inlist. reflexivity. }
+  split; [|split; [|split; [|split]]].
+  - rewrite E. rewrite ev2 by inlist. reflexivity.
+  - rewrite !ev2 by inlist. reflexivity.
+  - intros Hn. rewrite E. cbn [rep_result]. unfold repetition.
+    destruct ((n >? max_index)%Z || (n <? - max_index - 1)%Z) eqn:E1; [unfold max_index in *; lia|].
+    destruct (n <=? 0)%Z eqn:E2; [reflexivity|lia].
+  - intros Hs. rewrite ev2 by inlist. cbn. unfold repetition. cbn.
+    destruct s as [|c s]; [reflexivity|].
+    destruct (Z.of_nat (length (c :: s)) * 1 >=? alloc_limit)%Z eqn:E3; [lia|].
+    change (Pos.to_nat 1) with 1. cbn [repeat_list]. rewrite app_nil_r. reflexivity.
+  - intros r Hr Hn. rewrite E in Hr. cbn [rep_result] in Hr. unfold repetition in Hr.
+    destruct ((n >? max_index)%Z || (n <? - max_index - 1)%Z); [discriminate|].
+    destruct (n <=? 0)%Z eqn:E2; [lia|].
+    destruct s as [|c s].
+    + injection Hr as <-. cbn. lia.
+    + destruct (Z.of_nat (length (c :: s)) * n >=? alloc_limit)%Z; [discriminate|].
+      injection Hr as <-.
+      assert (L : forall k l, length (repeat_list k l) = k * length l).
+      { induction k as [|k IH]; intros l; cbn [repeat_list]; [reflexivity|]. rewrite app_length, IH. cbn. lia. }
+      rewrite L. lia.
+Qed.
+
 (* ------------------------------------------------------------------ unrelated kinds: no match; never ambiguous *)
 Lemma never_ambiguous2 : forall o x y, In o binary_ops -> In (kind_of F x) grid_kinds -> In (kind_of F y) grid_kinds ->
   ev o [x; y] <> RErr EAmbiguous.
